@@ -1055,7 +1055,7 @@ class ParsedEvent(EDXMLEvent, etree.ElementBase):
 
         attachments = self.find('{http://edxml.org/edxml}attachments')
         if attachments is not None:
-            attachments[:] = sorted(attachments, key=lambda element: (element.tag, element.attrib['id']))
+            attachments[:] = sorted(attachments, key=lambda element: (element.tag, element.attrib.get('id', '')))
 
         if 'parents' in self.attrib:
             self.attrib['parents'] = ','.join(sorted(self.attrib['parents'].split(',')))
@@ -1493,7 +1493,7 @@ class EventElement(EDXMLEvent):
 
         attachments = self.__element.find('attachments')
         if attachments is not None:
-            attachments[:] = sorted(attachments, key=lambda element: (element.tag, element.attrib['id']))
+            attachments[:] = sorted(attachments, key=lambda element: (element.tag, element.attrib.get('id', '')))
 
         if 'parents' in self.__element.attrib:
             self.__element.attrib['parents'] = ','.join(sorted(self.__element.attrib['parents'].split(',')))
